@@ -252,6 +252,180 @@ def run_whole_token(rep, facts):
     rep.floor("R13.4", "bodies with a Token-typed local", n_bodies, 2)
 
 
+def _ty_may_hold(ty):
+    """Can a value of this type own a Token?  (the Token itself, an aggregate naming it, or a future / trait object that hides its captures)"""
+    if not isinstance(ty, dict):
+        return False
+    s = ty.get("s", "")
+    if s.startswith("&") or s.startswith("*"):
+        return False
+    return TOKEN in [F.norm(a) for a in ty.get("adts", [])] or bool(ty.get("co")) or "dyn " in s or "impl " in s
+
+
+def run_token_outlives_suspensions(rep, facts):
+    """R13.5: a connection task holds its slot at every point where it can be suspended.  In every body that owns a Token by value on entry
+    (Token::run's coroutine and whatever the token is handed on to) a forward ownership dataflow follows the token through moves (into
+    locals, aggregates, futures returned by calls that take it) and ends it at a drop of its current holder or a call that consumes it;
+    no `yield` (await) may be reachable after that: the `Token::run` future would be unfinished -- its connection still open -- while its
+    slot is already free for the next `get_token`."""
+    rep.rule("R13.5", "in every async body that owns a Token on entry, the token (or a value it was moved into) is still owned at every suspension point: "
+                      "no await is reachable after the token's holder was dropped or consumed")
+    n_bodies = n_yields = 0
+    for b in facts.bodies:
+        if b.promoted:
+            continue
+        # holders at entry: by-value Token parameters, or Token-typed fields of the coroutine environment (_1.f)
+        entry = set()
+        for li in range(1, b.argc + 1):
+            ty = b.locals[li].get("ty")
+            if isinstance(ty, dict) and F.norm(ty.get("s", "")) == TOKEN:
+                entry.add(("l", li))
+
+        def tok_env(op):
+            m = op.get("move") if isinstance(op, dict) else None
+            if isinstance(m, dict) and m.get("l") == 1 and len(m.get("p", [])) == 1 and F.norm(str(m["p"][0].get("ty", ""))) == TOKEN:
+                return ("env", m["p"][0].get("f"))
+            return None
+
+        def ops_in(x, out):
+            if isinstance(x, dict):
+                if "move" in x and isinstance(x["move"], dict):
+                    out.append(x)
+                for v in x.values():
+                    ops_in(v, out)
+            elif isinstance(x, list):
+                for v in x:
+                    ops_in(v, out)
+        for blk in b.blocks:
+            for st in blk["st"]:
+                out = []
+                ops_in(st, out)
+                for o in out:
+                    e = tok_env(o)
+                    if e:
+                        entry.add(e)
+        if not entry:
+            continue
+        yields = [bi for bi, blk in enumerate(b.blocks) if blk["t"]["k"] == "yield"]
+        n_bodies += 1
+        n_yields += len(yields)
+
+        def key(op):
+            """holder key moved by this operand (whole local, or the environment's token field), else None"""
+            m = op.get("move") if isinstance(op, dict) else None
+            if not isinstance(m, dict):
+                return None
+            if not m.get("p"):
+                return ("l", m["l"])
+            return tok_env(op)
+
+        # flow-insensitive: which locals can ever hold the token
+        holders = set(entry)
+        changed = True
+        while changed:
+            changed = False
+            for blk in b.blocks:
+                for st in blk["st"]:
+                    if st.get("k") != "assign":
+                        continue
+                    out = []
+                    ops_in(st.get("rv"), out)
+                    if any(key(o) in holders for o in out):
+                        d = ("l", st["place"]["l"])
+                        if d not in holders:
+                            holders.add(d)
+                            changed = True
+                t = blk["t"]
+                if t["k"] == "call" and any(key(a) in holders for a in t.get("args", [])):
+                    d = t.get("dest")
+                    if d is not None and _ty_may_hold(b.locals[d["l"]].get("ty")):
+                        if ("l", d["l"]) not in holders:
+                            holders.add(("l", d["l"]))
+                            changed = True
+
+        def succ(t):
+            k = t["k"]
+            if k in ("goto", "drop", "assert", "yield", "false_edge", "false_unwind"):
+                return [t["target"]] if t.get("target") is not None else []
+            if k == "call":
+                return [t["target"]] if t.get("target") is not None else []
+            if k == "switch":
+                return [x[1] for x in t["targets"]] + ([t["otherwise"]] if t.get("otherwise") is not None else [])
+            return [t["target"]] if isinstance(t.get("target"), int) else []
+
+        # forward dataflow: (maybe-owned holders, token gone on some path, where it went)
+        IN = {0: (frozenset(entry), None)}
+        work = [0]
+        bad = {}
+        while work:
+            bi = work.pop()
+            live, gone = IN[bi]
+            live = set(live)
+            blk = b.blocks[bi]
+
+            def kill(k, why, sp):
+                nonlocal gone
+                if k in live:
+                    live.discard(k)
+                    if not live and gone is None:
+                        gone = (why, "%s:%s" % ((sp or {}).get("f"), (sp or {}).get("l")))
+            for st in blk["st"]:
+                if st.get("k") != "assign":
+                    continue
+                out = []
+                ops_in(st.get("rv"), out)
+                moved = [key(o) for o in out if key(o) in live]
+                d = ("l", st["place"]["l"])
+                if moved and d in holders and not st["place"].get("p"):
+                    for k in moved:
+                        live.discard(k)
+                    live.add(d)
+                elif moved:
+                    # stored into a field of something: the base local owns it from here on
+                    for k in moved:
+                        live.discard(k)
+                    live.add(d)
+                    holders.add(d)
+            t = blk["t"]
+            if t["k"] == "yield" and gone is not None:
+                bad[bi] = gone
+            if t["k"] == "drop" and not t["place"].get("p"):
+                kill(("l", t["place"]["l"]), "its holder %s is dropped" % b.local_name(t["place"]["l"]) if hasattr(b, "local_name") else "its holder _%d is dropped" % t["place"]["l"], t.get("sp"))
+            if t["k"] == "call":
+                moved = [key(a) for a in t.get("args", []) if key(a) in live]
+                if moved:
+                    d = t.get("dest")
+                    if d is not None and ("l", d["l"]) in holders:
+                        for k in moved:
+                            live.discard(k)
+                        live.add(("l", d["l"]))
+                    else:
+                        fn = F.norm((t.get("func") or {}).get("path", "?"))
+                        for k in moved:
+                            kill(k, "it is consumed by %s" % fn, t.get("sp"))
+            for s_ in succ(t):
+                new = (frozenset(live), gone)
+                old = IN.get(s_)
+                if old is None:
+                    IN[s_] = new
+                    work.append(s_)
+                else:
+                    m = (old[0] | new[0], old[1] or new[1])
+                    if m != old:
+                        IN[s_] = m
+                        work.append(s_)
+        short = b.npath
+        if bad:
+            bi = sorted(bad)[0]
+            sp = b.blocks[bi]["t"].get("sp") or {}
+            rep.violation("R13.5", "token-outlives-awaits[%s]" % short, "the connection task can be suspended at %d await(s) (first: %s:%s) after its Token is gone: %s at %s -- "
+                          "the slot is free for another get_token while this connection is still open" % (len(bad), sp.get("f"), sp.get("l"), bad[bi][0], bad[bi][1]), b.loc())
+        else:
+            rep.ok("R13.5", "token-outlives-awaits[%s]" % short, "the Token (holders: %d) is owned at each of the %d suspension points" % (len(holders), len(yields)), b.loc())
+    rep.floor("R13.5", "async bodies owning a Token", n_bodies, 1)
+    rep.floor("R13.5", "suspension points in them", n_yields, 2)
+
+
 def main(rep, tier):
     import check
     f = F.load(("async", "http"))
@@ -259,10 +433,11 @@ def main(rep, tier):
     check.guard(rep, "R13", run, f)
     check.guard(rep, "R13.3", selfcheck_fixture)
     check.guard(rep, "R13.4", run_whole_token, f)
+    check.guard(rep, "R13.5", run_token_outlives_suspensions, f)
     import check as _c
     _c.witnesses(rep, "C13", f)
     return rep.finish(
         "Construction-site, provenance and who-may-call rules: every Token owns a permit of the single semaphore sized max_conns, "
         "shared by all clones of the runner; nothing can leak or duplicate a permit. Given a semaphore that never hands out more than "
-        "its permits, #tokens <= #permits <= max_conns; a Token is never taken apart, so the permit lives as long as the value handed to the connection task.",
+        "its permits, #tokens <= #permits <= max_conns; a Token is never taken apart, so the permit lives as long as the value handed to the connection task, and that value is still owned at every suspension point of Token::run (R13.5).",
         not_decided="sentences 2-3 of the statement (immediate completion when a slot is free, wake-up of waiters on release, cancellation) are behaviour of the async-lock dependency and are not decided")
